@@ -44,6 +44,50 @@ CHECKS = {
     'C16': ("E1: exhaustive enumeration of payload sequences; type-1 IFLRs compared with supplied payloads",
             "All payload lengths 0..40 and around record capacity x kinds x tails x name lengths x record lengths, and all "
             "ordered sequences of 2-3 payloads over 1-2 NO-FORMAT objects.", '5/C16'),
+    'C07': ("E2: explicit-state BFS over add_* histories on the real builder API; decoded identities and references "
+            "compared with the model", "Breadth-first search over histories of add_* events (origins with/without explicit "
+            "reference at any position, same-named objects within and across types, default and named sets); every "
+            "state is completed, written, strictly decoded and checked for unique identities, resolvable references and "
+            "origin membership.", '5/C07'),
+    'C08': ("E1: full product of channel layouts and user-supplied DIMENSION/ELEMENT-LIMIT; descriptors read from the "
+            "file must slice every record", "Full product dtype x width x cast x user dimension x user element limit x "
+            "frame topology x source; inconsistent user values must raise, otherwise code, DIMENSION, ELEMENT-LIMIT and "
+            "record length are checked from the file alone.", '5/C08'),
+    'C09': ("E2-style exhaustive enumeration of add_* histories + E1 product of header parameters; record-order oracle",
+            "Every add_* history up to the depth bound plus header parameter products over 1-3 logical files; the "
+            "reassembled record sequence must be header, origin set(s), other sets once each, then data.", '5/C09'),
+    'C10': ("E2: explicit-state search of the real BufferedOutput/ByteWriter machine with state merging + E3 flush-point "
+            "enumeration end-to-end", "Every buffer size x every add-size sequence (merged states) on the real buffer "
+            "machine, and end-to-end every output chunk size from the record length to the file size, every input "
+            "chunk size, prior target content; every physical write is a crash point at which the on-disk bytes must "
+            "be a record-aligned prefix of the final file.", '5/C10'),
+    'C11': ("E1: full product of sources, mappings, permutations, windows and chunks; differential against the inline "
+            "write of pre-sliced arrays", "All four data-source kinds x dataset-name mapping x field order x extra "
+            "datasets x all windows x chunk sizes must give the byte-identical file.", '5/C11'),
+    'C12': ("E1: one invalid/degenerate aspect x valid context per family; raise-or-faithful oracle",
+            "Ten families of invalid or degenerate inputs on two valid contexts; unrepresentable inputs must raise, any "
+            "file that is written must pass the strict parse, the grammar and the full model comparison.", '5/C12'),
+    'C13': ("E1 full product of index channels x E2 histories (write; write); exact-arithmetic oracle",
+            "Index dtype x pattern x rows x window x user-supplied values x index type, and second writes with another "
+            "window, other data, another dtype; INDEX-MIN/MAX, SPACING, DIRECTION compared with Fractions.", '5/C13'),
+    'C14': ("E2: explicit-state BFS over process histories; differential against a fresh interpreter",
+            "Histories of file(S_i), rewrite, mutate-and-rewrite and mode events over a pool of specifications that "
+            "collide in every per-process cache, process-global state not reset inside a history; the last write must "
+            "equal a fresh interpreter's.", '5/C14'),
+    'C17': ("E2: BFS over context-manager histories with a stack model + E1 product of restricted aspects inside / "
+            "outside the mode", "Flag compared with a stack model after every event of every history; each restricted "
+            "aspect violated alone must raise inside (also nested, after exceptions) and be accepted with a WARNING "
+            "outside; conforming files are checked against all restrictions at once.", '5/C17'),
+    'C18': ("E2-style exhaustive interleaving of per-logical-file add_* sequences + E1 product of frame layouts",
+            "All interleavings of 2-3 logical files' add_* sequences x set-name assignment; shared-set configurations "
+            "must raise, all others are compared per logical file with the model; 1-3 frames with different row counts "
+            "and colliding channel names.", '5/C18'),
+    'C19': ("E1: full product of data layouts and sources with before/after snapshots of every caller buffer",
+            "Root buffers of all arrays (incl. memory around views), dict keys/values, structured arrays and the HDF5 "
+            "file are hashed before and after valid and failing writes.", '5/C19'),
+    'C20': ("E2: explicit-state BFS over histories of valid and rejected calls + failing-write sequences; differential "
+            "oracle", "The file of a history must equal the file of the same history without its rejected calls; "
+            "failing writes followed by a repaired write must equal a fresh specification's write.", '5/C20'),
 }
 
 NOT_YET = {}
